@@ -7,7 +7,8 @@ method's end keyword); the annotation after '@' tells the oracle which lines the
 
     <text1 code points>#<text2 code points>@<kind>:<first_line>:<n_lines_old>:<n_lines_new>:<n_decls>
 
-kind  X exhaustive short token garbage, S random token soup, M token-level mutation of the original body,
+kind  R regression witnesses of the repaired finding eof-diagnostic-at-origin (an error at the very END of the body),
+      X exhaustive short token garbage, S random token soup, M token-level mutation of the original body,
       D double edit (text1 already has a garbled method, another one is edited), G edit of a method of a program with stray
       tokens between its declarations, T truncation.
 first_line   0-based line of the edited method's header (the same in both texts),
@@ -27,7 +28,7 @@ MANIFEST = dict(
                "closed under the 22 combinators of parser/utils.rs holds of all ~80 parse_* functions at every fuel level), instantiated three "
                "times: context framing (a parser never reads the diagnostics / cache contents left behind; cache-insensitive for types, "
                "declarations, methods -- a body starts with clear_cache -- and the top-level loop), provenance of diagnostic ranges (a diagnostic "
-               "emitted while parsing a slice starts at a token of the slice or is 0:0-0:0), constancy of the memo switch; (3) symbolic evaluation "
+               "emitted while parsing a slice starts where a token of the slice starts and ends where one ends -- no exception), constancy of the memo switch; (3) symbolic evaluation "
                "of the header parsers on a syntactic class of headers.  Differential run of the extracted lexer/parser/outline models against "
                "lex + parse_gold + DocumentSymbolGeneratorFromAst on PAIRS of programs that differ in one method body, with the property's own "
                "statement evaluated on the implementation's output alone"),
@@ -42,15 +43,22 @@ MANIFEST = dict(
           "ANY post, nodes(pre++post) = nodes(pre alone) ++ nodes(loop on post from pre's context), diagnostics likewise.  C09_local: "
           "pre ++ hdr ++ body ++ [end] ++ post versus the same with body': identical nodes for pre and post, diagnostics = diags(pre) ; header "
           "diags ; diags(body in isolation) ; Dpost with the SAME Dpost -- only the two bodies' own diagnostics differ; "
-          "C09_new_diags_in_method_lines / C09_lines_hold_outside_known_class: each of those that is not 0:0 starts on a line of the body.  "
-          "C09_eof_diag_refuted(_iso,_seplist): WITHOUT that guard the clause `every new diagnostic lies within the lines of that method` is "
-          "FALSE of the faithful model and of the code: an error at the very end of the body slice (`foo(y` / `foo(y,`) is reported at "
-          "Range::default() 0:0-0:0 (finding eof-diagnostic-at-origin; replayed on every run).  C09_missing_end: last method without end "
+          "C09_new_diags_at_body_tokens: EVERY one of those starts where a token of the body starts and ends where a token of the body ends, "
+          "hence C09_new_diags_in_method_lines / C09_new_diags_end_in_method_lines: it starts and ends on lines of the body -- unconditionally "
+          "(the former exception `unless its range is 0:0-0:0` is gone; C09_no_diag_at_origin: the formerly excluded class is empty; nothing "
+          "remains excluded: an empty body has no diagnostics, the top-level loop reports at first-token..last-token of the file and its "
+          "diagnostics are the shared Dpost).  An error at the very end of the body slice (`foo(y`) is reported at the last token the failing "
+          "parser was given (err_range), a list item missing at the very end (`foo(y,`) at the separator in front of it (repair of finding "
+          "eof-diagnostic-at-origin, tools/c09_proposed_fix.diff).  C09_eof_diag_regression(_iso,_seplist): the finding's witnesses now "
+          "satisfy the clause (diagnostic on `y` 4:5-4:6 resp. on `,` 4:6-4:7); C09_eof_diag_old_refuted(_seplist): the recovery as it WAS "
+          "(PComb.repeat_w_ctx_old / until_w_ctx_old / sep_list_old) reports them at Range::default() 0:0-0:0, on a line of another "
+          "method.  C09_missing_end: last method without end "
           "token: open node with parse_method_body of ALL remaining tokens, `proc/func end token not found` on the header's first token as the "
           "last diagnostic, pre's nodes and diagnostics as when parsed alone.  Examples: guard satisfiable and necessary, hypotheses "
           "satisfiable, a header with parameters, two methods with a garbage body, a truncated file.  Correspondence: engine `locality` runs "
           "both sides on pairs (program, edited program) and compares the complete observation of both texts: remaining token count, full tree "
-          "dump, ordered diagnostics with messages, outline.  Pairs: every method with a body of hand-written and generated programs with its body replaced "
+          "dump, ordered diagnostics with messages, outline.  Pairs: (R) the witnesses of the repaired finding and their variants (an error at the very end of a body, of a nested "
+          "block, of an argument / array list) as REGRESSION cases that must satisfy the property; every method with a body of hand-written and generated programs with its body replaced "
           "by (X) every token sequence of length <= 2 (quick) / <= 3 (thorough) over a 16-kind body alphabet, (S) random soups of 1..40 tokens "
           "over all keywords except endproc/endfunc/end, operators, identifiers, literals and end-of-line comments, on one or several lines, "
           "(M) the original body after 1..3 token-level mutations, (D) the same edits applied to a program in which ANOTHER method is already "
@@ -58,14 +66,16 @@ MANIFEST = dict(
           "method's end keyword.  The oracle states the property on the implementation's output: same number of top-level declarations; every "
           "declaration before the edited method byte-identical, every one after it identical after shifting character offsets and line numbers "
           "by the size of the edit; outline entries likewise; the diagnostics outside the method's old lines all survive (shifted); every new "
-          "diagnostic starts and ends inside the method's new lines; (T) `proc/func end token not found` is reported on the header line, the "
+          "diagnostic starts and ends inside the method's new lines (a 0:0-0:0 diagnostic outside the method is a plain violation: the known "
+          "class eof-diagnostic-at-origin no longer exists); (T) `proc/func end token not found` is reported on the header line, the "
           "method is the last declaration, its AstMethodBody is byte-identical to the untruncated one, its end token is absent, earlier "
           "declarations and outline entries are untouched."),
     note=("Partial: is_header is proved for a syntactic class of headers only (simple parameters typed by a plain type name); pre must be a "
           "concatenation of closed units (complete methods) -- declarations that look ahead (class header, constant, field) before the edited "
           "method are covered by the check, not by the theorem; theorems are stated for parse_gold_with memo fuel with one fuel above both file "
-          "lengths (the entry point's own default fuel is length+2).  Refuted clause: new diagnostics inside the method's lines (0:0 diagnostics "
-          "at the end of a body slice).  Trusted: Coq kernel, translators, extraction, harness; the hand-written model Model/PComb.v + "
+          "lengths (the entry point's own default fuel is length+2).  No refuted clause is left: the finding eof-diagnostic-at-origin (0:0 "
+          "diagnostics for an error at the end of a body slice) is repaired by tools/c09_proposed_fix.diff and the model follows the repaired "
+          "code; against a tree WITHOUT that repair the check reports a VIOLATION on the regression pairs (kind R).  Trusted: Coq kernel, translators, extraction, harness; the hand-written model Model/PComb.v + "
           "Model/Grammar.v + Model/Outline.v (validated by this differential run and by C04/C12).  The garbage never contains a method "
           "terminator, an unterminated literal or a header-extending first token ( '(' '#' private protected final override external forward ): "
           "the property is about tokens inside the body."),
@@ -91,10 +101,26 @@ HEADER_SHAPED = ["( a : record", "( a : record\nb : int4", "( a : record ( tP )"
                  "( var a : int4 ; x", "( a : int4 ) return", "( a : int4 ) return record", "( a : int4 ) private x = 1", "( ) external 'a.dll' x",
                  "# Evt ( a : record", "# Evt x = 1", "private final x = 1", "override ( a", "external", "external 'x.dll' forward y = 2",
                  "forward [", "forward [ Transient", "forward type t : record", "forward const c =", "( a : record endrecord ) x = ["]
-EOF_ID = "eof-diagnostic-at-origin"
-EOF_WHAT = ("eof-diagnostic-at-origin: a statement/list error at the very end of a method body is reported with Range::default() "
-            "(0:0:0:0 `Unexpected EOF`), i.e. on line 0 and not inside the method (parse_repeat_w_context / "
-            "_parse_seperated_list_recursive_w_context: `None => Default::default()`)")
+# finding eof-diagnostic-at-origin (a statement/list error at the very end of a method body was reported with Range::default(),
+# 0:0-0:0, i.e. on line 0 and not inside the method) is REPAIRED (tools/c09_proposed_fix.diff): it is no longer a known class --
+# a 0:0 diagnostic outside the method is a plain violation -- and its witnesses are regression cases (kind R).
+RETIRED_FINDINGS = ("eof-diagnostic-at-origin",)
+# (intact body, body whose LAST statement / list item fails at the very end of the body slice)
+REGRESSION_BODIES = [
+    (" foo(y)", " foo(y"),                         # the finding's witness: parse_repeat_w_context at the end of the body
+    (" foo(y)", " foo(y,"),                        # _parse_seperated_list_recursive_w_context on an empty rest
+    (" x = (1)", " x = ("),
+    (" x = 1", " x ="),
+    (" x = [1]", " x = [1,"),
+    (" foo(y, z)", " foo(y, z,"),
+    (" foo(bar(y))", " foo(bar(y,"),
+    (" while a\n  x = (1)\n endwhile", " while a\n  x = ("),          # parse_until_w_context inside a block that runs to the end
+    (" if a\n  foo(y)\n endif", " if a\n  foo(y,"),
+    (" if a\n  foo(y)\n else\n  x = 1\n endif", " if a\n  foo(y)\n else\n  x = ("),
+    (" loop\n  x = 1\n endloop", " loop\n  x = 1 +"),
+    (" a.b(1)", " a.b(1,"),
+    (" x = y", " x = y."),
+]
 
 # ---------------------------------------------------------------------------------------------
 # small helpers on texts
@@ -374,6 +400,20 @@ def apply_edit(lines, m, new_body, nl="\n"):
     return lines[:fl + 1] + [l + cr for l in new_body] + lines[fl + n - 1:]
 
 
+def regression_cases():
+    """cases `proc A / x = 1 / endproc / proc P / <body> / endproc [/ proc Z / y = 2 / endproc]` with the body of P replaced
+    by one whose last statement fails at the very end of the body slice; the first one is the listed witness of the finding"""
+    out = []
+    for tail in ([], ["proc Z", " y = 2", "endproc"]):
+        for (good, bad) in REGRESSION_BODIES:
+            pre = ["proc A", " x = 1", "endproc"]
+            g, b = good.split("\n"), bad.split("\n")
+            l1 = pre + ["proc P"] + g + ["endproc"] + tail
+            l2 = pre + ["proc P"] + b + ["endproc"] + tail
+            out.append(mk_case(join_lines(l1), join_lines(l2), "R", len(pre), len(g) + 2, len(b) + 2, n_decls(l1)))
+    return out
+
+
 def exhaustive_bodies(maxlen):
     for l in range(maxlen + 1):
         for t in itertools.product(pc.TOK_BODY, repeat=l):
@@ -420,6 +460,11 @@ def gen_cases(ctx, hb=None):
     def add(kind, lines1, lines2, nl, fl, n_old, n_new):
         cases.append(mk_case(join_lines(lines1, nl), join_lines(lines2, nl), kind, fl, n_old, n_new, n_decls(lines1)))
         hist[kind] += 1
+
+    # (R) regression: the witnesses of the repaired finding eof-diagnostic-at-origin must satisfy the property
+    for c in regression_cases():
+        cases.append(c)
+        hist["R"] += 1
 
     def body_of(lines, m):
         return lines[m["first_line"] + 1: m["first_line"] + m["n_lines"] - 1]
@@ -764,10 +809,7 @@ def _oracle(case, out, stats=None):
         if not (lo <= sl <= hi_new and lo <= el <= hi_new):
             bad.append(d)
     if bad:
-        if all(diag_fields(d)[:4] == (0, 0, 0, 0) for d in bad):
-            return ("[eof-diagnostic-at-origin] %d new diagnostic(s) with range 0:0-0:0, outside the edited method (lines %d..%d): %s"
-                    % (len(bad), lo, hi_new, show_diag(bad[0])))
-        d = [x for x in bad if diag_fields(x)[:4] != (0, 0, 0, 0)][0]
+        d = bad[0]
         return "[diagnostic-outside-method] a new diagnostic lies outside the edited method (lines %d..%d): %s" % (lo, hi_new, show_diag(d))
     return None
 
@@ -836,10 +878,7 @@ def _oracle_ext(fl, n_old, n_new, dl, dc, o1, o2, kids1, kids2, h1, k, e1, e2, c
         return "[diagnostic-lost] a diagnostic of another declaration disappears or moves: %s" % show_diag(d)
     bad = [d for d in (have - need).elements() if not (lo <= diag_fields(d)[0] <= hi_new and lo <= diag_fields(d)[2] <= hi_new)]
     if bad:
-        if all(diag_fields(d)[:4] == (0, 0, 0, 0) for d in bad):
-            return ("[eof-diagnostic-at-origin] %d new diagnostic(s) with range 0:0-0:0, outside the edited method (lines %d..%d): %s"
-                    % (len(bad), lo, hi_new, show_diag(bad[0])))
-        d = [x for x in bad if diag_fields(x)[:4] != (0, 0, 0, 0)][0]
+        d = bad[0]
         return "[diagnostic-outside-method] a new diagnostic lies outside the edited method (lines %d..%d): %s" % (lo, hi_new, show_diag(d))
     return None
 
@@ -880,8 +919,6 @@ def _oracle_trunc(fl, n_old, o1, o2, kids1, kids2, h1, k, e1, e2, c1, c2, idx1):
     if have != exp:
         extra = sorted((have - exp).elements()) + sorted((exp - have).elements())
         d = extra[0]
-        if d in (have - exp) and all(diag_fields(x)[:4] == (0, 0, 0, 0) for x in (have - exp)) and not (exp - have):
-            return "[eof-diagnostic-at-origin] the truncated text reports a diagnostic with range 0:0-0:0: %s" % show_diag(d)
         return "[missing-end-extra-diagnostic] the diagnostics of the truncated text are not those of the original plus the end-token one: %s" % show_diag(d)
     # outline entries before the method
     pos_k = idx1.index(k)
@@ -1004,43 +1041,19 @@ def nontrivial(case):
     return a != b and nd >= 2
 
 
-def open_ids(ctx):
-    return [f.get("id") for f in ctx.open_findings()]
-
-
-def make_known(ctx, state):
-    eof_open = EOF_ID in open_ids(ctx)
-
-    def known(case, impl_out, model_out):
-        if not eof_open:
-            return None
-        if model_out is not None and model_out != impl_out:
-            return None          # a model/implementation disagreement is never explained by a finding of the code
-        r = oracle(case, impl_out)
-        if tag_of(r) == EOF_ID:
-            if model_out is not None:
-                state["known_finding_cases"] += 1
-            return EOF_WHAT
-        return None
-    return known
-
-
 def replay_findings(ctx, hb):
-    """every listed open finding must still reproduce on the implementation"""
+    """every listed open finding of this property must still reproduce on the implementation.  Retired findings (repaired, their
+    witnesses are regression cases of kind R) are never treated as known even while an entry is still listed."""
     checked = []
     for f in ctx.open_findings():
         w = f.get("witness")
-        if not w:
+        if not w or f.get("id") in RETIRED_FINDINGS:
             continue
         out = core.run_lines(hb, "parse", [enc(w)], shards=1)[0]
         p = out.split("|")
         diags = [d for d in p[2].split(";") if d] if len(p) == 3 else []
-        if f.get("id") == EOF_ID:
-            ok = any(diag_fields(d)[:4] == (0, 0, 0, 0) for d in diags)
-        else:
-            ok = bool(diags)
         checked.append(f.get("id"))
-        if not ok:
+        if not diags:
             path = core.write_replay(ctx.pid, ctx.seed, {
                 "engine": "parse", "broken": "listed finding %s no longer reproduces (remove it from known_findings.json)" % f.get("id"),
                 "case": enc(w), "case_readable": w, "observed": out[:2000]})
@@ -1048,7 +1061,9 @@ def replay_findings(ctx, hb):
     return checked
 
 
-RULE = ("pairs (program, program with one method body replaced / truncated before the last method's end keyword).  Base programs: %d "
+RULE = ("pairs (program, program with one method body replaced / truncated before the last method's end keyword).  R: %d regression pairs "
+        "(the witnesses of the repaired finding eof-diagnostic-at-origin: a statement / list item / nested block that fails at the very END "
+        "of the body, with and without a method after it).  Base programs: %d "
         "(%d hand-written: header + const + 3 methods incl. a func with parameters and a Name#Event proc; the rest from vlib/goldgen.py, ~20%% "
         "CRLF; %d generated programs dropped because they do not parse cleanly).  X: every token sequence of length <= %d over the 16-kind body "
         "alphabet not starting with '(' as the body of each of %d methods (exhaustive, %d bodies per method); S: random soups of 1..40 tokens "
@@ -1062,17 +1077,15 @@ def correspondence(ctx, broken_obligations=()):
     hb = diff.Engines.harness()
     t0 = time.time()
     cases, hist, info = gen_cases(ctx, hb)
-    state = dict(known_finding_cases=0)
-    known = make_known(ctx, state)
     findings_replayed = replay_findings(ctx, hb)
     maxlen = 2 if ctx.quick else 3
     sample_of = {}
     for c in cases:
         k = c.rsplit("@", 1)[1][0]
-        if k in ("S", "D", "G", "T") and k not in sample_of and len(c) < 6000:
+        if k in ("R", "S", "D", "G", "T") and k not in sample_of and len(c) < 6000:
             sample_of[k] = describe(c)[:900]
     extra = dict(
-        rule=RULE % (info["base_programs"], info["base_programs_hand_written"], info["base_programs_dropped"], maxlen,
+        rule=RULE % (hist.get("R", 0), info["base_programs"], info["base_programs_hand_written"], info["base_programs_dropped"], maxlen,
                      info["methods_swept_exhaustively"], info["exhaustive_bodies_per_method"]),
         exhaustive=True, input_histogram=hist, samples=[sample_of[k] for k in sorted(sample_of)],
         open_findings_replayed=findings_replayed, generation_wall_s=round(time.time() - t0, 2), **info)
@@ -1083,7 +1096,7 @@ def correspondence(ctx, broken_obligations=()):
     try:
         for i in range(0, len(cases), chunk):
             part = set(cases[i:i + chunk])
-            cov = diff.differential(ctx, ENGINE, cases[i:i + chunk], known=known, shrinker=shrinker,
+            cov = diff.differential(ctx, ENGINE, cases[i:i + chunk], known=None, shrinker=shrinker,
                                     oracle=lambda c, o: oracle(c, o, stats if c in part else None),
                                     nontrivial=nontrivial, describe=describe)
             if total is None:
@@ -1094,11 +1107,9 @@ def correspondence(ctx, broken_obligations=()):
                 total["diff_wall_s"] = round(total["diff_wall_s"] + cov["diff_wall_s"], 2)
     except core.Violation as v:
         v.coverage = dict(getattr(v, "coverage", {}) or {}, **extra)
-        v.coverage["known_finding_cases"] = state["known_finding_cases"]
         raise
     total = total or {}
     total.update(extra)
-    total["known_finding_cases"] = state["known_finding_cases"]
     return total
 
 
@@ -1106,29 +1117,25 @@ def replay(ctx, rep):
     case = rep["case"]
     hb = diff.Engines.harness()
     if "@" not in case:
-        # witness of a listed finding (engine parse)
+        # witness of a listed finding (engine parse) that no longer reproduces
         out = core.run_lines(hb, "parse", [case], shards=1)[0]
         print("text:", repr(dec(case))[:800]); print("implementation:", out[:800])
         p = out.split("|")
         diags = [d for d in p[2].split(";") if d] if len(p) == 3 else []
-        if any(diag_fields(d)[:4] == (0, 0, 0, 0) for d in diags):
-            print("the listed finding reproduces: a diagnostic with range 0:0-0:0 is present")
+        if diags:
+            print("the listed finding reproduces: %s" % "; ".join(show_diag(d) for d in diags)[:400])
             return 0
-        print("the listed finding does not reproduce on this witness: no diagnostic with range 0:0-0:0")
+        print("the listed finding does not reproduce on this witness")
         print("VIOLATION property=C09 replay=%s" % rep.get("how_to_rerun", "?").split()[-1])
         return 1
     out = core.run_lines(hb, ENGINE, [case], shards=1)[0]
     mod = core.run_lines(diff.Engines.model(), ENGINE, [case], shards=1)[0]
     r = oracle(case, out)
-    known = make_known(ctx, dict(known_finding_cases=0))
-    k = known(case, out, mod) if r else None
     print(describe(case))
     print("implementation:", out[:3000])
     print("model agrees:", out == mod)
     print("oracle:", r or "property holds on this case")
-    if k:
-        print("KNOWN-FINDING: property=C09 %s" % k)
-    if (r and not k) or out != mod:
+    if r or out != mod:
         print("VIOLATION property=C09 replay=%s" % rep.get("how_to_rerun", "?").split()[-1])
         return 1
     return 0
